@@ -28,8 +28,9 @@ CLAIMS = {
              "nesting depth 256 exercised on both sides.",
         note="C02Builder.lean adds: exec_never_panics / parse_no_panic (the parser model NEVER ends in any of the six panics, tree-builder "
              "panics and root count included, for every input and every fuel, by a verified abstract interpretation of the builder "
-             "frames) and parser_finishes (one root, no open node); that `parseFuel` = 64*len+4096 suffices is measured (worst case "
-             "~24 per character), not proved. "
+             "frames) and parser_finishes (one root, no open node). C02Fuel.lean: check_bound (quantitative refinement of "
+             "check_sound: every function runs within W + 92*remaining + 13*rank levels of fuel), parser_fuel_bound / "
+             "run_not_outOfFuel / run_ok_of_fuel (92*len + 92 levels suffice for every input), parse_never_panics_of_parseFuel. "
              "The linear "
              "work constant is measured (steps per token on both sides), not proved; stack depth is a runtime measurement.",
         tech="Lean 4 proof: verified abstract-interpretation checker (total-correctness soundness theorem) + decide +kernel on the grammar",
@@ -109,8 +110,16 @@ CLAIMS = {
              "types and annotations; generator oracle: well-typed programs of the core produce no diagnostic at all, every "
              "single seeded fault of the eleven listed classes is reported with a range covering the seeded site and nothing is "
              "reported in files the fault does not touch (unreported faults count only if llvm-tblgen rejects the program).",
-        note="Partial: soundness/completeness of the whole diagnostic pass is decided by the oracle; the theorems cover the typing "
-             "relation and the two generic checkers. Known findings: top-level `let f = v in` checks neither field name nor type.",
+        note="Per fault site (all 18 `ctx.error` sites of index.rs, table at the head of section (4) of Props/C13.lean): a run equation "
+             "saying the site reports exactly when its lookup fails / its cast does not hold, with file = head of the file trace, the "
+             "range of the named node and the message (include_not_found, classRef_class_lookup, classRef_multiclass_lookup, "
+             "parent_self_inherit, namedArg_bad_name, fieldDef_initialiser, fieldLet_field_not_found(_reported), fieldLet_value, "
+             "innerValue_suffixes, identifier_lookup, classValue_lookup, type_class_lookup, classParam_default, ...); bang operators: "
+             "arity, type annotation and operand-list contracts (17 inline two-operand comparisons listed as not covered). "
+             "Attribution: diagnostics_attributed / other_files_unchanged / index_diagnostics_files (every diagnostic belongs to the "
+             "file being indexed; indexing an include leaves other files' diagnostics unchanged). Soundness: "
+             "core_no_diagnostics_partial for a small lookup-free core (class/def with typed literal fields); beyond it the oracle. "
+             "letItem_unchecked proves the known finding (top-level `let f = v in` checks neither field name nor type).",
         tech="Lean 4 proof (decision logic stated outright: iff-characterisations) + differential correspondence + fault-seeding oracle audited by llvm-tblgen",
         ref="DESIGN.md §7 C13, §12.7"),
     "C17": dict(
@@ -171,9 +180,12 @@ CLAIMS = {
         note="Model: SymbolMap.lean vs ide/src/symbol_map.rs; iset::IntervalMap semantics assumed as documented in the model. "
              "C06Index.lean discharges the log hypotheses for the log of the indexer MODEL on every workspace: index_refsValid, "
              "index_namedRefs, index_textOk, index_disjointLocs (invariant NamesOK through all indexer functions), giving "
-             "index_cursor_is_target_or_reference and index_same_text unconditionally; index_goto_from_references_agrees keeps the "
-             "single residual hypothesis RefStable (refStable_not_from_ready shows it does not follow from the tree facts alone; it "
-             "is still evaluated on every real log).",
+             "index_cursor_is_target_or_reference and index_same_text unconditionally. C06RefStable.lean discharges the last one: "
+             "index_noReuse (after a reference at a location nothing is registered there again: each file is indexed once, each "
+             "node visited once, sibling ranges disjoint, identifier tokens non-empty - IdsNE, proved for parser output), hence "
+             "built_refStable and built_goto_from_references_agrees / built_same_text with NO residual hypothesis for every "
+             "workspace built from files (refStable_not_from_ready: for an arbitrary Ready workspace IdsNE is needed). The log "
+             "hypotheses are still evaluated on every real log as well.",
         tech="Lean 4 proof (invariants over operation logs) + op-sequence correspondence by replaying the real log",
         ref="DESIGN.md §7 C06"),
     "C07": dict(
@@ -277,9 +289,13 @@ CLAIMS = {
              "bang_offered_accepted_partial and bang_accepted_offered_partial with the exact exception lists, the negations of "
              "the two full statements with concrete witnesses, and the unbounded bang_accepted_iff_key (the lexer accepts "
              "exactly its table keys). The translator is cross-validated against Analysis::completion and the real lexer; class "
-             "completion (exact class set, one placeholder per template parameter) is explored on generated hierarchies.",
-        note="Known findings (8 words) pinned by snapshot tests; class-completion part is exploration until the SymbolMap model "
-             "covers it.",
+             "completion (exact class set, one placeholder per template parameter) is proved on the handler model (C20Classes.lean) and "
+             "compared on generated hierarchies with every kind of parameter default.",
+        note="Known findings (8 words) pinned by snapshot tests. Class clause: Props/C20Classes.lean on the handler model - "
+             "class_completions_exact (in a parent-class position the class items are exactly the entries of name_to_class, one "
+             "each), class_item_snippet (name + `<${1}, ..., ${n}>` with one placeholder per template parameter, none when n = 0), "
+             "class_item_label, redeclared_class_one_item (a re-declared class is one class: the later declaration); tied by "
+             "comparing the completion answers of model and implementation on generated hierarchies.",
         tech="Lean 4 `decide +kernel` over translator-regenerated tables + lexer model; run-time cross-validation of the translator",
         ref="DESIGN.md §7 C20"),
 }
